@@ -35,8 +35,6 @@ def cpf_bind(src, pv, mode, model, given=True, feed_type='weight', P=(P1, P2), f
 def havoc(src, y=Y, d=D_, it=None):
     it = it if it is not None else var('it', 'I')
     def h(ex, env, carried):
-        known = {'d', 'iterations', 'permeate_composition', 'permeate_composition_new'}
-        if not carried <= known: raise Unsupported("loop of calculate_partial_fluxes carries unexpected variables %s" % sorted(carried - known))
         env['permeate_composition'] = Obj('Composition', dict(p=y, type='weight'))
         env['d'] = d
         if 'iterations' in carried: env['iterations'] = it
@@ -100,7 +98,7 @@ def obligations(cx):
                 cx.ob(tag + ".head.paths", [], blit(len(iters) >= 1 and len(exits) >= 1), kind='paths', function=CPF)
                 for i, p in enumerate(iters):
                     e = p.value.env; yn = e['permeate_composition']
-                    cx.ob(tag + ".iter%d.preserves-invariant" % i, p.pc, band(blit(isinstance(yn, Obj) and yn.cls == 'Composition' and yn.f['type'] == 'weight'),
+                    cx.ob(tag + ".iter%d.preserves-invariant" % i, p.pc, inductive=True, goal=band(blit(isinstance(yn, Obj) and yn.cls == 'Composition' and yn.f['type'] == 'weight'),
                           yn.f['p'] >= 0, yn.f['p'] <= 1), function=CPF)
                     cx.ob(tag + ".iter%d.next-iterate=G(y)" % i, p.pc, eq(yn.f['p'], G), function=CPF,
                           statement="one iteration maps y to the composition of the solution-diffusion fluxes evaluated at y")
